@@ -105,7 +105,7 @@ class NdE:
         c = NdE(self.shape, self.data)
         # optional marks set by the numpy model: forced dtype, view of a buffer, numpy views ((root Ref, positions in the
         # root) / ((view Ref, positions), ...)), memory layout not known to be C-contiguous, ndarray.flat
-        for k in ("dtype", "shared", "viewof", "views", "layout_unknown", "flatiter"):
+        for k in ("dtype", "shared", "viewof", "views", "layout_unknown", "flatiter", "cursor"):
             if k in self.__dict__:
                 setattr(c, k, self.__dict__[k])
         return c
